@@ -204,6 +204,18 @@ pub mod iter {
         assert!(f == [1.0f32, 1.0]);
         let mut w: Window<f64, Rectangle> = Window::new(4);
         assert!(w.next().unwrap() == 1.0);
+        // the free constructor functions and the typed Windower constructors are the same objects
+        let mut wr = dasp_signal::window::rectangle::<[f32; 2]>(4);
+        assert!(wr.next().unwrap() == [1.0f32, 1.0]);
+        let mut wh = dasp_signal::window::hann::<f64>(4);
+        assert!(wh.next().is_some());
+        let data = [[0.5f32, 0.25]; 4];
+        let mut a = Windower::rectangle(&data[..], 2, 2);
+        let mut b: Windower<[f32; 2], Rectangle> = Windower::new(&data[..], 2, 2);
+        assert!(a.size_hint() == b.size_hint());
+        assert!(a.next().unwrap().next() == b.next().unwrap().next());
+        let h = Windower::hann(&data[..], 2, 2);
+        assert!(h.bin == 2 && h.hop == 2 && h.frames.len() == 4);
         kani::cover!(true, "end");
     }
 }
